@@ -27,6 +27,7 @@ import (
 	"time"
 
 	"github.com/Fantom-foundation/lachesis-base/gossip/itemsfetcher"
+	"github.com/Fantom-foundation/lachesis-base/utils/cachescale"
 )
 
 func init() {
@@ -135,10 +136,19 @@ func runScenario(cfgWords, script []string) string {
 	us := func(k string) time.Duration { return time.Duration(kvOf(cfgWords, k)) * time.Microsecond }
 	arrive := us("ar")
 	r := &fetchRun{base: time.Now().Add(-10 * time.Second), interesting: map[uint64]bool{}, lastN: -1}
-	f := itemsfetcher.New(itemsfetcher.Config{
+	cfg := itemsfetcher.Config{
 		ForgetTimeout: us("fg"), ArriveTimeout: arrive, GatherSlack: us("ga"), HashLimit: int(kvOf(cfgWords, "hl")),
 		MaxBatch: 64, MaxParallelRequests: 4, MaxQueuedBatches: 16,
-	}, itemsfetcher.Callback{OnlyInterested: r.onlyInterested, Suspend: r.suspend})
+	}
+	if sc := kvOf(cfgWords, "sc"); sc != 0 {
+		// the batch and queue sizes a node with a small cache scale derives are never 0 (DefaultConfig rounds up);
+		// with a zero batch size nothing announced would ever be requested
+		d := itemsfetcher.DefaultConfig(cachescale.Ratio{Base: sc, Target: 1})
+		if d.MaxBatch <= 0 || d.MaxQueuedBatches <= 0 || d.MaxParallelRequests <= 0 {
+			return "log X:derived-config-has-zero-sizes"
+		}
+	}
+	f := itemsfetcher.New(cfg, itemsfetcher.Callback{OnlyInterested: r.onlyInterested, Suspend: r.suspend})
 	f.Start()
 	defer f.Stop()
 	// the initial timer (NewTimer(0)) fires first
@@ -358,6 +368,10 @@ func genFetch(r *Rand, n int, tier string, w *bufio.Writer) {
 				wait(uint64(r.Intn(8)), 4)
 			}
 		}
-		fmt.Fprintf(w, "scen fg=%d ar=%d ga=%d hl=%d | %s\n", forget, arrive, gather, hl, strings.Join(s, " "))
+		sc := ""
+		if r.Chance(1, 4) {
+			sc = fmt.Sprintf(" sc=%d", r.Pick(8, 100, 1024, 100000))
+		}
+		fmt.Fprintf(w, "scen fg=%d ar=%d ga=%d hl=%d%s | %s\n", forget, arrive, gather, hl, sc, strings.Join(s, " "))
 	}
 }
